@@ -15,9 +15,9 @@ import (
 	"unicode/utf8"
 
 	"github.com/golang/snappy"
+	remoteapi "github.com/prometheus/client_golang/exp/api/remote"
 	"github.com/prometheus/common/model"
 	"github.com/prometheus/common/promslog"
-	remoteapi "github.com/prometheus/client_golang/exp/api/remote"
 	"pgregory.net/rapid"
 
 	"github.com/prometheus/prometheus/model/histogram"
@@ -574,8 +574,6 @@ func c41BuildV2(rq c41Req, floatBits func(si int, b uint64) uint64, optimized bo
 
 // ---- the check --------------------------------------------------------------------
 
-var c41Debug bool
-
 type c41Entry struct {
 	key     string
 	t, st   int64
@@ -704,9 +702,6 @@ func runC41(c c41Case, r *ev.Rec) error {
 			return fmt.Errorf("harness: dump: %w", err)
 		}
 		r.Class(fmt.Sprintf("status:%dxx", status/100))
-		if c41Debug {
-			fmt.Printf("request %d status %d headers %v body %q\n after: %v\n ex: %v\n", ri, status, rec.Header(), rec.Body.String(), after.samples, after.exemplars)
-		}
 		where := fmt.Sprintf("request %d (proto %d, status %d, body %q)", ri, c.Proto, status, strings.TrimSpace(firstN(rec.Body.String(), 200)))
 
 		if status/100 == 5 {
